@@ -50,14 +50,13 @@ Proof.
   intros p P g H. unfold skel, sproj, tproj. cbn. rewrite (upd_first_map t_h P g _ H); reflexivity.
 Qed.
 
-Definition keeps_skel (k : part -> part * ret) : Prop :=
-  forall p, skel (fst (k p)) = skel p /\ pa_ovf (fst (k p)) = pa_ovf p.
+Definition keeps_skel (k : part -> part * ret) : Prop := forall p, skel (fst (k p)) = skel p.
 
 Lemma ks_set_group_qos : forall sd gh q, keeps_skel (fun p => set_group_qos sd p gh q).
 Proof.
   intros sd gh q p. unfold set_group_qos. destruct (find_first (is_group gh) (groups sd p)); cbn; auto.
   match goal with |- context [if ?c then _ else _] => destruct c end; cbn; auto.
-  split; [apply skel_set_groups_upd; reflexivity|destruct sd; reflexivity].
+  apply skel_set_groups_upd; reflexivity.
 Qed.
 Lemma ks_get_group_qos : forall sd gh, keeps_skel (fun p => get_group_qos sd p gh).
 Proof. intros sd gh p. unfold get_group_qos. destruct (find_first (is_group gh) (groups sd p)); cbn; auto. Qed.
@@ -76,14 +75,14 @@ Proof.
   intros sd gh eh q p. unfold set_ep_qos. destruct (find_first (is_group gh) (groups sd p)); cbn; auto.
   destruct (find_first (is_ep eh) (g_eps g)); cbn; auto.
   repeat (match goal with |- context [if ?c then _ else _] => destruct c end; cbn; auto).
-  split; [|destruct sd; reflexivity]. apply skel_set_groups_upd. intros x. unfold gproj; cbn. f_equal.
+  apply skel_set_groups_upd. intros x. unfold gproj; cbn. f_equal.
   apply upd_first_map. reflexivity.
 Qed.
 Lemma ks_enable_ep : forall sd gh eh, keeps_skel (fun p => enable_ep sd p gh eh).
 Proof.
   intros sd gh eh p. unfold enable_ep. destruct (find_first (is_group gh) (groups sd p)); cbn; auto.
   destruct (find_first (is_ep eh) (g_eps g)); cbn; auto.
-  split; [|destruct sd; reflexivity]. apply skel_set_groups_upd. intros x. unfold gproj; cbn. f_equal.
+  apply skel_set_groups_upd. intros x. unfold gproj; cbn. f_equal.
   apply upd_first_map. reflexivity.
 Qed.
 Lemma ks_get_topic_qos : forall name, keeps_skel (fun p => get_topic_qos p name).
@@ -92,45 +91,42 @@ Lemma ks_set_topic_qos : forall name q, keeps_skel (fun p => set_topic_qos p nam
 Proof.
   intros name q p. unfold set_topic_qos. destruct (find_first (is_topic name) (pa_topics p)); cbn; auto.
   repeat (match goal with |- context [if ?c then _ else _] => destruct c end; cbn; auto).
-  split; [|reflexivity]. apply skel_set_topics_upd. reflexivity.
+  apply skel_set_topics_upd. reflexivity.
 Qed.
 Lemma ks_enable_topic : forall name, keeps_skel (fun p => enable_topic p name).
 Proof.
   intros name p. unfold enable_topic. destruct (find_first (is_topic name) (pa_topics p)); cbn; auto.
-  split; [|reflexivity]. apply skel_set_topics_upd. reflexivity.
+  apply skel_set_topics_upd. reflexivity.
 Qed.
 Lemma ks_set_part_qos : forall q, keeps_skel (fun p => set_part_qos p q).
-Proof. intros q p. split; reflexivity. Qed.
+Proof. intros q p. reflexivity. Qed.
 Lemma ks_get_part_qos : keeps_skel (fun p => (p, RPQ (pa_q p))).
-Proof. intros p. split; reflexivity. Qed.
+Proof. intros p. reflexivity. Qed.
 Lemma ks_enable_part : keeps_skel enable_part.
 Proof.
-  intros p. unfold enable_part. destruct (pa_en p); cbn; auto. split; [|reflexivity].
+  intros p. unfold enable_part. destruct (pa_en p); cbn; auto.
   unfold skel, sproj, tproj; cbn. rewrite map_map. reflexivity.
 Qed.
 Lemma ks_delete_cft : forall name, keeps_skel (fun p => delete_cft p name).
-Proof. intros name p; split; reflexivity. Qed.
+Proof. intros name p; reflexivity. Qed.
 
 (* ------------------------------------------------------------------ the operations that change the skeleton *)
 Definition preserves (k : part -> part * ret) : Prop :=
-  forall p, part_inv p -> pa_ovf (fst (k p)) = false ->
-            part_inv (fst (k p)) /\ pa_h (fst (k p)) = pa_h p /\ pa_ovf p = false /\ snd (k p) <> RPanic.
+  forall p, part_inv p -> part_inv (fst (k p)) /\ pa_h (fst (k p)) = pa_h p /\ snd (k p) <> RPanic.
 
 Lemma keeps_preserves : forall k, keeps_skel k -> (forall p, snd (k p) <> RPanic) -> preserves k.
 Proof.
-  intros k H Hn p Hi Ho. destruct (H p) as [Hs Hov]. split; [|split; [|split]]; auto.
+  intros k H Hn p Hi. pose proof (H p) as Hs. split; [|split]; auto.
   - eapply part_inv_skel; eauto.
   - unfold skel in Hs. inversion Hs; auto.
-  - congruence.
 Qed.
 
-(* facts about  set_groups sd (set_gcounter sd p cv) l *)
+(* facts about  set_groups sd (set_gcounter sd p c) l *)
 Section GroupSet.
-  Variables (sd : side) (p : part) (cv : Z * bool) (l : list group).
-  Let p' := set_groups sd (set_gcounter sd p cv) l.
+  Variables (sd : side) (p : part) (c : Z) (l : list group).
+  Let p' := set_groups sd (set_gcounter sd p c) l.
   Lemma gs_h : pa_h p' = pa_h p. Proof. destruct sd; reflexivity. Qed.
-  Lemma gs_ovf : pa_ovf p' = pa_ovf p || snd cv. Proof. destruct sd; reflexivity. Qed.
-  Lemma gs_gc_same : gcounter sd p' = fst cv. Proof. destruct sd; reflexivity. Qed.
+  Lemma gs_gc_same : gcounter sd p' = c. Proof. destruct sd; reflexivity. Qed.
   Lemma gs_gc_other : gcounter (other sd) p' = gcounter (other sd) p. Proof. destruct sd; reflexivity. Qed.
   Lemma gs_ec : forall s, ecounter s p' = ecounter s p. Proof. destruct sd, s; reflexivity. Qed.
   Lemma gs_tc : pa_tc p' = pa_tc p. Proof. destruct sd; reflexivity. Qed.
@@ -138,16 +134,15 @@ Section GroupSet.
   Lemma gs_sproj_same : sproj sd p' = map gproj l. Proof. destruct sd; reflexivity. Qed.
   Lemma gs_sproj_other : sproj (other sd) p' = sproj (other sd) p. Proof. destruct sd; reflexivity. Qed.
 End GroupSet.
-Lemma gs_groups0 : forall sd p cv, groups sd (set_gcounter sd p cv) = groups sd p.
-Proof. intros [|] p cv; reflexivity. Qed.
+Lemma gs_groups0 : forall sd p c, groups sd (set_gcounter sd p c) = groups sd p.
+Proof. intros [|] p c; reflexivity. Qed.
 
-(* facts about  set_groups sd (set_ecounter sd p cv) l *)
+(* facts about  set_groups sd (set_ecounter sd p c) l *)
 Section EpSet.
-  Variables (sd : side) (p : part) (cv : Z * bool) (l : list group).
-  Let p' := set_groups sd (set_ecounter sd p cv) l.
+  Variables (sd : side) (p : part) (c : Z) (l : list group).
+  Let p' := set_groups sd (set_ecounter sd p c) l.
   Lemma es_h : pa_h p' = pa_h p. Proof. destruct sd; reflexivity. Qed.
-  Lemma es_ovf : pa_ovf p' = pa_ovf p || snd cv. Proof. destruct sd; reflexivity. Qed.
-  Lemma es_ec_same : ecounter sd p' = fst cv. Proof. destruct sd; reflexivity. Qed.
+  Lemma es_ec_same : ecounter sd p' = c. Proof. destruct sd; reflexivity. Qed.
   Lemma es_ec_other : ecounter (other sd) p' = ecounter (other sd) p. Proof. destruct sd; reflexivity. Qed.
   Lemma es_gc : forall s, gcounter s p' = gcounter s p. Proof. destruct sd, s; reflexivity. Qed.
   Lemma es_tc : pa_tc p' = pa_tc p. Proof. destruct sd; reflexivity. Qed.
@@ -155,49 +150,38 @@ Section EpSet.
   Lemma es_sproj_same : sproj sd p' = map gproj l. Proof. destruct sd; reflexivity. Qed.
   Lemma es_sproj_other : sproj (other sd) p' = sproj (other sd) p. Proof. destruct sd; reflexivity. Qed.
 End EpSet.
-Lemma es_groups0 : forall sd p cv, groups sd (set_ecounter sd p cv) = groups sd p.
-Proof. intros [|] p cv; reflexivity. Qed.
-Lemma es0_h : forall sd p cv, pa_h (set_ecounter sd p cv) = pa_h p.
-Proof. intros [|] p cv; reflexivity. Qed.
-Lemma es0_ovf : forall sd p cv, pa_ovf (set_ecounter sd p cv) = pa_ovf p || snd cv.
-Proof. intros [|] p cv; reflexivity. Qed.
+Lemma es_groups0 : forall sd p c, groups sd (set_ecounter sd p c) = groups sd p.
+Proof. intros [|] p c; reflexivity. Qed.
+Lemma es0_h : forall sd p c, pa_h (set_ecounter sd p c) = pa_h p.
+Proof. intros [|] p c; reflexivity. Qed.
 
 (* facts about  set_groups sd p l *)
 Section PlainSet.
   Variables (sd : side) (p : part) (l : list group).
   Let p' := set_groups sd p l.
   Lemma ps_h : pa_h p' = pa_h p. Proof. destruct sd; reflexivity. Qed.
-  Lemma ps_ovf : pa_ovf p' = pa_ovf p. Proof. destruct sd; reflexivity. Qed.
   Lemma ps_gc : forall s, gcounter s p' = gcounter s p. Proof. destruct sd, s; reflexivity. Qed.
   Lemma ps_ec : forall s, ecounter s p' = ecounter s p. Proof. destruct sd, s; reflexivity. Qed.
   Lemma ps_tc : pa_tc p' = pa_tc p. Proof. destruct sd; reflexivity. Qed.
   Lemma ps_tproj : tproj p' = tproj p. Proof. destruct sd; reflexivity. Qed.
 End PlainSet.
 
-Ltac unchanged :=
-  cbn [fst snd] in *; split; [assumption|split; [reflexivity|split; [assumption|discriminate]]].
+Ltac unchanged := cbn [fst snd]; split; [assumption|split; [reflexivity|discriminate]].
 
 Lemma pres_create_group : forall pr sd q, preserves (fun p => create_group pr sd p q).
 Proof.
-  intros pr sd q p Hi Ho. unfold create_group in *.
-  set (cv := bump 255 (gcounter sd p)) in *.
-  set (g := mkGr (child_handle (pa_h p) (gcounter sd p) 0 0 (group_kind sd)) (pa_en p && p_auto (pa_q p))
-                 (match q with Some x => x | None => defgq sd p end) (default_eqos (ekind_of sd)) []) in *.
-  assert (Hflag : pa_ovf p = false /\ snd cv = false).
-  { destruct (panics pr cv); cbn [fst] in Ho; [destruct sd; cbn in Ho|rewrite gs_ovf in Ho];
-      apply orb_false_iff in Ho; auto. }
-  destruct Hflag as [Hp Hcv]. destruct (bump_ok _ _ Hcv) as [Hlt Hfst]. fold cv in Hfst.
-  assert (Hpan : panics pr cv = false) by (destruct pr; cbn; auto).
-  rewrite Hpan in *. cbn [fst snd].
-  split; [|split; [apply gs_h|split; [auto|discriminate]]].
+  intros pr sd q p Hi. unfold create_group.
+  destruct (next_id 255 (gcounter sd p)) as [c'|] eqn:Hn; [|unchanged].
+  destruct (next_id_some _ _ _ Hn) as [Hlt ->]. cbn [fst snd].
+  split; [|split; [apply gs_h|discriminate]].
   pose proof (pi_gc _ Hi) as Hgc. pose proof (pi_ec _ Hi) as Hec.
   apply part_inv_build with (p := p); auto.
   - apply gs_h.
-  - apply (side_cases _ sd); [rewrite gs_gc_same, Hfst; specialize (Hgc sd); lia|rewrite gs_gc_other; apply Hgc].
+  - apply (side_cases _ sd); [rewrite gs_gc_same; specialize (Hgc sd); lia|rewrite gs_gc_other; apply Hgc].
   - intros s; rewrite gs_ec; apply Hec.
   - rewrite gs_tc. apply (pi_tc _ Hi).
   - apply (side_cases _ sd).
-    + rewrite gs_sproj_same, gs_gc_same, gs_ec, Hfst, gs_groups0, map_app.
+    + rewrite gs_sproj_same, gs_gc_same, gs_ec, gs_groups0, map_app.
       apply ginv_new_group; [apply (Hgc sd)|apply (pi_groups _ Hi sd)].
     + rewrite gs_sproj_other, gs_gc_other, gs_ec. apply (pi_groups _ Hi (other sd)).
   - rewrite gs_tproj, gs_tc. apply (pi_topics _ Hi).
@@ -205,12 +189,11 @@ Qed.
 
 Lemma pres_delete_group : forall sd parent gh, preserves (fun p => delete_group sd p parent gh).
 Proof.
-  intros sd parent gh p Hi Ho. unfold delete_group in *.
+  intros sd parent gh p Hi. unfold delete_group.
   destruct (negb (heqb parent (pa_h p))); [unchanged|].
   destruct (find_first (is_group gh) (groups sd p)); [|unchanged].
   destruct (negb (is_nil (g_eps g))); [unchanged|].
-  cbn [fst snd] in *. rewrite ps_ovf in Ho.
-  split; [|split; [apply ps_h|split; [auto|discriminate]]].
+  cbn [fst snd]. split; [|split; [apply ps_h|discriminate]].
   apply part_inv_build with (p := p); auto.
   - apply ps_h.
   - intros s; rewrite ps_gc; apply (pi_gc _ Hi).
@@ -226,11 +209,10 @@ Qed.
 
 Lemma pres_delete_endpoint : forall sd gh eh, preserves (fun p => delete_endpoint sd p gh eh).
 Proof.
-  intros sd gh eh p Hi Ho. unfold delete_endpoint in *.
+  intros sd gh eh p Hi. unfold delete_endpoint.
   destruct (find_first (is_group gh) (groups sd p)); [|unchanged].
   destruct (find_first (is_ep eh) (g_eps g)); [|unchanged].
-  cbn [fst snd] in *. rewrite ps_ovf in Ho.
-  split; [|split; [apply ps_h|split; [auto|discriminate]]].
+  cbn [fst snd]. split; [|split; [apply ps_h|discriminate]].
   apply part_inv_build with (p := p); auto.
   - apply ps_h.
   - intros s; rewrite ps_gc; apply (pi_gc _ Hi).
@@ -250,8 +232,8 @@ Qed.
 
 Lemma pres_delete_contained : preserves delete_contained.
 Proof.
-  intros p Hi Ho. unfold delete_contained in *. cbn [fst snd] in *.
-  split; [|split; [reflexivity|split; [exact Ho|discriminate]]].
+  intros p Hi. unfold delete_contained. cbn [fst snd].
+  split; [|split; [reflexivity|discriminate]].
   apply part_inv_build with (p := p); auto.
   - intros [|]; [apply (pi_gc _ Hi SPub)|apply (pi_gc _ Hi SSub)].
   - intros [|]; [apply (pi_ec _ Hi SPub)|apply (pi_ec _ Hi SSub)].
@@ -260,61 +242,48 @@ Proof.
   - split; constructor.
 Qed.
 
-(* facts about set_tcounter / set_topics / set_cfts *)
-Lemma ts_skel : forall p cv l,
-    skel (set_topics (set_tcounter p cv) l)
-    = (pa_h p, (pa_pubc p, pa_subc p, pa_wc p, pa_rc p, fst cv), (sproj SPub p, sproj SSub p, map t_h l)).
-Proof. reflexivity. Qed.
-
 Lemma create_topic_tail : forall p2 name h (en : bool),
     let r := if en then match enable_topic p2 name with (p3, RUnit) => (p3, RHandle h) | (p3, r) => (p3, r) end
              else (p2, RHandle h) in
-    skel (fst r) = skel p2 /\ pa_ovf (fst r) = pa_ovf p2 /\ snd r <> RPanic.
+    skel (fst r) = skel p2 /\ snd r <> RPanic.
 Proof.
-  intros p2 name h en. destruct en; cbn zeta; [|cbn; repeat split; auto; discriminate].
-  destruct (ks_enable_topic name p2) as [Hs Hov].
+  intros p2 name h en. destruct en; cbn zeta; [|cbn; split; auto; discriminate].
+  pose proof (ks_enable_topic name p2) as Hs.
   unfold enable_topic in *. destruct (find_first (is_topic name) (pa_topics p2)); cbn in *;
-    repeat split; auto; discriminate.
+    split; auto; discriminate.
 Qed.
 
 Lemma pres_create_topic : forall pr name q, preserves (fun p => create_topic pr p name q).
 Proof.
-  intros pr name q p Hi Ho. unfold create_topic in *.
+  intros pr name q p Hi. unfold create_topic.
   destruct (existsb (is_topic name) (pa_topics p)); [unchanged|].
-  set (cv := bump 65535 (pa_tc p)) in *.
+  match goal with |- context [match ?x with Some qos => _ | None => (p, RErr E_INCONSISTENT) end] =>
+    destruct x as [qos|] end; [|unchanged].
+  destruct (next_id 65535 (pa_tc p)) as [c'|] eqn:Hn; [|unchanged].
+  destruct (next_id_some _ _ _ Hn) as [Hlt ->].
   set (h := child_handle (pa_h p) 0 (lo8 (pa_tc p)) (hi8 (pa_tc p)) KIND_TOPIC) in *.
-  set (t := mkTp h name false (match q with Some x => x | None => pa_deftopic p end)) in *.
-  set (p2 := set_topics (set_tcounter p cv) (pa_topics (set_tcounter p cv) ++ [t])) in *.
-  destruct (create_topic_tail p2 name h (pa_en p && p_auto (pa_q p))) as (Hs & Hov & Hnp).
-  cbn zeta in Hs, Hov, Hnp.
-  assert (Hflag : pa_ovf p = false /\ snd cv = false).
-  { destruct (panics pr cv) eqn:Hpan.
-    - cbn [fst] in Ho. cbn in Ho. apply orb_false_iff in Ho; auto.
-    - rewrite Hov in Ho. cbn in Ho. apply orb_false_iff in Ho; auto. }
-  destruct Hflag as [Hp Hcv]. destruct (bump_ok _ _ Hcv) as [Hlt Hfst]. fold cv in Hfst.
-  assert (Hpan : panics pr cv = false) by (destruct pr; cbn; auto).
-  rewrite Hpan in *.
+  set (p2 := set_topics (set_tcounter p (pa_tc p + 1)) (pa_topics (set_tcounter p (pa_tc p + 1)) ++ [mkTp h name false qos])).
+  destruct (create_topic_tail p2 name h (pa_en p && p_auto (pa_q p))) as (Hs & Hnp). cbn zeta in Hs, Hnp.
   assert (Hi2 : part_inv p2).
   { apply part_inv_build with (p := p); auto; try reflexivity.
     - intros [|]; [apply (pi_gc _ Hi SPub)|apply (pi_gc _ Hi SSub)].
     - intros [|]; [apply (pi_ec _ Hi SPub)|apply (pi_ec _ Hi SSub)].
-    - cbn. rewrite Hfst. pose proof (pi_tc _ Hi). lia.
+    - cbn. pose proof (pi_tc _ Hi). lia.
     - intros [|]; [apply (pi_groups _ Hi SPub)|apply (pi_groups _ Hi SSub)].
-    - unfold p2, tproj. cbn [pa_topics set_topics set_tcounter pa_tc]. rewrite Hfst, map_app. cbn [map t_h t].
+    - unfold p2, tproj. cbn [pa_topics set_topics set_tcounter pa_tc]. rewrite map_app. cbn [map t_h].
       apply tinv_new; [apply (pi_tc _ Hi)|apply (pi_topics _ Hi)]. }
-  split; [eapply part_inv_skel; eauto|].
-  split; [|split; auto].
+  split; [eapply part_inv_skel; eauto|]. split; auto.
   unfold skel in Hs. inversion Hs. reflexivity.
 Qed.
 
 Lemma pres_delete_topic : forall parent name, preserves (fun p => delete_topic p parent name).
 Proof.
-  intros parent name p Hi Ho. unfold delete_topic in *.
+  intros parent name p Hi. unfold delete_topic.
   destruct (negb (heqb (pa_h p) parent)); [unchanged|].
   destruct (find_first (is_topic name) (pa_topics p)); [|unchanged].
   destruct (existsb (uses_topic (t_name t)) (pa_pubs p)); [unchanged|].
   destruct (existsb (uses_topic (t_name t)) (pa_subs p)); [unchanged|].
-  cbn [fst snd] in *. split; [|split; [reflexivity|split; [exact Ho|discriminate]]].
+  cbn [fst snd]. split; [|split; [reflexivity|discriminate]].
   apply part_inv_build with (p := p); auto; try reflexivity.
   - intros [|]; [apply (pi_gc _ Hi SPub)|apply (pi_gc _ Hi SSub)].
   - intros [|]; [apply (pi_ec _ Hi SPub)|apply (pi_ec _ Hi SSub)].
@@ -328,104 +297,90 @@ Qed.
 
 Lemma pres_create_cft : forall pr name related, preserves (fun p => create_cft pr p name related).
 Proof.
-  intros pr name related p Hi Ho. unfold create_cft in *.
+  intros pr name related p Hi. unfold create_cft.
   destruct (negb (existsb (is_topic related) (pa_topics p))); [unchanged|].
-  set (cv := bump 65535 (pa_tc p)) in *.
-  assert (Hflag : pa_ovf p = false /\ snd cv = false).
-  { destruct (panics pr cv); cbn in Ho; apply orb_false_iff in Ho; auto. }
-  destruct Hflag as [Hp Hcv]. destruct (bump_ok _ _ Hcv) as [Hlt Hfst]. fold cv in Hfst.
-  assert (Hpan : panics pr cv = false) by (destruct pr; cbn; auto).
-  rewrite Hpan in *. cbn [fst snd] in *.
-  split; [|split; [reflexivity|split; [auto|discriminate]]].
+  destruct (next_id 65535 (pa_tc p)) as [c'|] eqn:Hn; [|unchanged].
+  destruct (next_id_some _ _ _ Hn) as [Hlt ->]. cbn [fst snd].
+  split; [|split; [reflexivity|discriminate]].
   apply part_inv_build with (p := p); auto; try reflexivity.
   - intros [|]; [apply (pi_gc _ Hi SPub)|apply (pi_gc _ Hi SSub)].
   - intros [|]; [apply (pi_ec _ Hi SPub)|apply (pi_ec _ Hi SSub)].
-  - cbn. rewrite Hfst. pose proof (pi_tc _ Hi). lia.
+  - cbn. pose proof (pi_tc _ Hi). lia.
   - intros [|]; [apply (pi_groups _ Hi SPub)|apply (pi_groups _ Hi SSub)].
   - cbn [pa_tc set_cfts set_tcounter]. unfold tproj; cbn [pa_topics set_cfts set_tcounter].
     eapply tinv_mono; [|apply (pi_topics _ Hi)]. lia.
 Qed.
 
 (* the endpoint counter moved on, nothing else *)
-Lemma part_inv_ecounter : forall sd p cv,
-    part_inv p -> snd cv = false -> fst cv = ecounter sd p + 1 -> ecounter sd p < 65535 ->
-    part_inv (set_ecounter sd p cv).
+Lemma part_inv_ecounter : forall sd p,
+    part_inv p -> ecounter sd p < 65535 -> part_inv (set_ecounter sd p (ecounter sd p + 1)).
 Proof.
-  intros sd p cv Hi Hcv Hfst Hlt.
+  intros sd p Hi Hlt.
   apply part_inv_build with (p := p); auto.
   - apply es0_h.
   - intros s. destruct sd, s; cbn; first [apply (pi_gc _ Hi SPub)|apply (pi_gc _ Hi SSub)].
   - intros s. pose proof (pi_ec _ Hi SPub). pose proof (pi_ec _ Hi SSub). destruct sd, s; cbn in *; lia.
   - destruct sd; apply (pi_tc _ Hi).
   - intros s. pose proof (pi_groups _ Hi s) as Hg.
-    assert (E : sproj s (set_ecounter sd p cv) = sproj s p) by (destruct sd, s; reflexivity).
-    assert (Eg : gcounter s (set_ecounter sd p cv) = gcounter s p) by (destruct sd, s; reflexivity).
+    assert (E : sproj s (set_ecounter sd p (ecounter sd p + 1)) = sproj s p) by (destruct sd, s; reflexivity).
+    assert (Eg : gcounter s (set_ecounter sd p (ecounter sd p + 1)) = gcounter s p) by (destruct sd, s; reflexivity).
     rewrite E, Eg. eapply ginv_mono; [| |exact Hg]; [lia|].
     destruct sd, s; cbn in *; lia.
-  - assert (E : tproj (set_ecounter sd p cv) = tproj p) by (destruct sd; reflexivity).
-    assert (Et : pa_tc (set_ecounter sd p cv) = pa_tc p) by (destruct sd; reflexivity).
+  - assert (E : tproj (set_ecounter sd p (ecounter sd p + 1)) = tproj p) by (destruct sd; reflexivity).
+    assert (Et : pa_tc (set_ecounter sd p (ecounter sd p + 1)) = pa_tc p) by (destruct sd; reflexivity).
+    rewrite E, Et. apply (pi_topics _ Hi).
+Qed.
+
+Lemma pres_push_endpoint : forall sd p g name qos,
+    part_inv p -> ecounter sd p < 65535 ->
+    let h := child_handle (pa_h p) (h_k0 (g_h g)) (lo8 (ecounter sd p)) (hi8 (ecounter sd p)) (ep_kind sd) in
+    let r := push_endpoint sd (set_ecounter sd p (ecounter sd p + 1)) g h name qos in
+    part_inv (fst r) /\ pa_h (fst r) = pa_h p /\ snd r <> RPanic.
+Proof.
+  intros sd p g name qos Hi Hlt h r. unfold r, push_endpoint. cbn [fst snd].
+  split; [|split; [rewrite ps_h; apply es0_h|discriminate]].
+  apply part_inv_build with (p := p); auto.
+  - rewrite ps_h. apply es0_h.
+  - intros s. rewrite ps_gc. destruct sd, s; cbn; first [apply (pi_gc _ Hi SPub)|apply (pi_gc _ Hi SSub)].
+  - intros s. rewrite ps_ec. pose proof (pi_ec _ Hi SPub). pose proof (pi_ec _ Hi SSub).
+    destruct sd, s; cbn in *; lia.
+  - rewrite ps_tc. destruct sd; apply (pi_tc _ Hi).
+  - intros s. rewrite ps_gc, ps_ec. revert s. apply (side_cases _ sd).
+    + rewrite sproj_set_groups_same, es_groups0.
+      rewrite (map_upd_first gproj (is_group (g_h g)) (fun ge => heqb (fst ge) (g_h g)) _
+                 (fun ge => (fst ge, snd ge ++ [(h, h)]))).
+      * assert (Eg : gcounter sd (set_ecounter sd p (ecounter sd p + 1)) = gcounter sd p) by (destruct sd; reflexivity).
+        assert (Ee : ecounter sd (set_ecounter sd p (ecounter sd p + 1)) = ecounter sd p + 1) by (destruct sd; reflexivity).
+        rewrite Eg, Ee. unfold h. apply ginv_new_ep; [apply (pi_ec _ Hi sd)|apply (pi_groups _ Hi sd)].
+      * reflexivity.
+      * intros x. unfold gproj; cbn. rewrite map_app. reflexivity.
+    + assert (E : forall l, sproj (other sd) (set_groups sd (set_ecounter sd p (ecounter sd p + 1)) l) = sproj (other sd) p)
+        by (intros; destruct sd; reflexivity).
+      assert (Eg : gcounter (other sd) (set_ecounter sd p (ecounter sd p + 1)) = gcounter (other sd) p) by (destruct sd; reflexivity).
+      assert (Ee : ecounter (other sd) (set_ecounter sd p (ecounter sd p + 1)) = ecounter (other sd) p) by (destruct sd; reflexivity).
+      rewrite E, Eg, Ee. apply (pi_groups _ Hi (other sd)).
+  - rewrite ps_tproj, ps_tc.
+    assert (E : tproj (set_ecounter sd p (ecounter sd p + 1)) = tproj p) by (destruct sd; reflexivity).
+    assert (Et : pa_tc (set_ecounter sd p (ecounter sd p + 1)) = pa_tc p) by (destruct sd; reflexivity).
     rewrite E, Et. apply (pi_topics _ Hi).
 Qed.
 
 Lemma pres_create_endpoint : forall pr sd gh name q, preserves (fun p => create_endpoint pr sd p gh name q).
 Proof.
-  intros pr sd gh name q p Hi Ho. unfold create_endpoint in *.
+  intros pr sd gh name q p Hi. unfold create_endpoint.
   destruct (lookup_topic sd p name); [|unchanged].
   destruct (find_first (is_group gh) (groups sd p)) as [g|] eqn:Hg; [|unchanged].
-  set (cv := bump 65535 (ecounter sd p)) in *.
-  set (h := child_handle (pa_h p) (h_k0 (g_h g)) (lo8 (ecounter sd p)) (hi8 (ecounter sd p)) (ep_kind sd)) in *.
   set (qchk := match q with
                | Some x => if is_consistent (ekind_of sd) x then Some x else None
-               | None => Some (g_defq g) end) in *.
-  (* the push itself *)
-  assert (Hpush : forall qos, snd cv = false -> pa_ovf p = false ->
-            part_inv (fst (push_endpoint sd (set_ecounter sd p cv) g h name qos)) /\
-            pa_h (fst (push_endpoint sd (set_ecounter sd p cv) g h name qos)) = pa_h p /\
-            snd (push_endpoint sd (set_ecounter sd p cv) g h name qos) <> RPanic).
-  { intros qos Hcv Hp. destruct (bump_ok _ _ Hcv) as [Hlt Hfst]. fold cv in Hfst.
-    unfold push_endpoint. cbn [fst snd]. split; [|split; [rewrite ps_h; apply es0_h|discriminate]].
-    apply part_inv_build with (p := p); auto.
-    - rewrite ps_h. apply es0_h.
-    - intros s. rewrite ps_gc. destruct sd, s; cbn; first [apply (pi_gc _ Hi SPub)|apply (pi_gc _ Hi SSub)].
-    - intros s. rewrite ps_ec. pose proof (pi_ec _ Hi SPub). pose proof (pi_ec _ Hi SSub).
-      destruct sd, s; cbn in *; lia.
-    - rewrite ps_tc. destruct sd; apply (pi_tc _ Hi).
-    - intros s. rewrite ps_gc, ps_ec. revert s. apply (side_cases _ sd).
-      + rewrite sproj_set_groups_same, es_groups0.
-        rewrite (map_upd_first gproj (is_group (g_h g)) (fun ge => heqb (fst ge) (g_h g)) _
-                   (fun ge => (fst ge, snd ge ++ [(h, h)]))).
-        * assert (Eg : gcounter sd (set_ecounter sd p cv) = gcounter sd p) by (destruct sd; reflexivity).
-          assert (Ee : ecounter sd (set_ecounter sd p cv) = ecounter sd p + 1) by (destruct sd; cbn; auto).
-          rewrite Eg, Ee. unfold h. apply ginv_new_ep; [apply (pi_ec _ Hi sd)|apply (pi_groups _ Hi sd)].
-        * reflexivity.
-        * intros x. unfold gproj; cbn. rewrite map_app. reflexivity.
-      + assert (E : forall l, sproj (other sd) (set_groups sd (set_ecounter sd p cv) l) = sproj (other sd) p)
-          by (intros; destruct sd; reflexivity).
-        assert (Eg : gcounter (other sd) (set_ecounter sd p cv) = gcounter (other sd) p) by (destruct sd; reflexivity).
-        assert (Ee : ecounter (other sd) (set_ecounter sd p cv) = ecounter (other sd) p) by (destruct sd; reflexivity).
-        rewrite E, Eg, Ee. apply (pi_groups _ Hi (other sd)).
-    - rewrite ps_tproj, ps_tc.
-      assert (E : tproj (set_ecounter sd p cv) = tproj p) by (destruct sd; reflexivity).
-      assert (Et : pa_tc (set_ecounter sd p cv) = pa_tc p) by (destruct sd; reflexivity).
-      rewrite E, Et. apply (pi_topics _ Hi). }
-  assert (Hpo : forall qos, pa_ovf (fst (push_endpoint sd (set_ecounter sd p cv) g h name qos)) = pa_ovf p || snd cv).
-  { intros qos. unfold push_endpoint. cbn [fst]. rewrite ps_ovf. apply es0_ovf. }
+               | None => Some (g_defq g) end).
   destruct sd.
-  - (* writer: counter first *)
-    destruct (panics pr cv) eqn:Hpan.
-    + cbn [fst] in Ho. rewrite es0_ovf in Ho. apply orb_false_iff in Ho. destruct Ho as [_ Ho].
-      apply panics_flag in Hpan. congruence.
-    + destruct qchk as [qos|].
-      * rewrite Hpo in Ho. apply orb_false_iff in Ho. destruct Ho as [Hp Hcv].
-        destruct (Hpush qos Hcv Hp) as (H1 & H2 & H3). auto.
-      * cbn [fst snd] in *. rewrite es0_ovf in Ho. apply orb_false_iff in Ho. destruct Ho as [Hp Hcv].
-        destruct (bump_ok _ _ Hcv) as [Hlt Hfst]. fold cv in Hfst.
-        split; [apply part_inv_ecounter; auto|split; [apply es0_h|split; [auto|discriminate]]].
-  - (* reader: QoS first *)
-    destruct qchk as [qos|]; [|unchanged].
-    destruct (panics pr cv) eqn:Hpan.
-    + cbn [fst] in Ho. rewrite es0_ovf in Ho. apply orb_false_iff in Ho. destruct Ho as [_ Ho].
-      apply panics_flag in Hpan. congruence.
-    + rewrite Hpo in Ho. apply orb_false_iff in Ho. destruct Ho as [Hp Hcv].
-      destruct (Hpush qos Hcv Hp) as (H1 & H2 & H3). auto.
+  - destruct (next_id 65535 (ecounter SPub p)) as [c'|] eqn:Hn; [|unchanged].
+    destruct (next_id_some _ _ _ Hn) as [Hlt ->].
+    destruct qchk as [qos|].
+    + apply (pres_push_endpoint SPub p g name qos Hi Hlt).
+    + cbn [fst snd]. split; [apply part_inv_ecounter; auto|split; [apply es0_h|discriminate]].
+  - destruct qchk as [qos|]; [|unchanged].
+    destruct (next_id 65535 (ecounter SSub p)) as [c'|] eqn:Hn; [|unchanged].
+    destruct (next_id_some _ _ _ Hn) as [Hlt ->].
+    apply (pres_push_endpoint SSub p g name qos Hi Hlt).
 Qed.
